@@ -512,3 +512,80 @@ func enumR(r repSpec, allAliasSets bool, emit func(aliasOff int, gc []int)) {
 		}
 	}
 }
+
+// ---------- C family: multi-element condition paths with a missing element ----------
+
+// cSpec is one case of the C family. The condition of the focus dependency X
+// is a path with several table elements; Shape says which:
+//
+//	0  addons.X.enabled          (shortened: X.enabled)
+//	1  X.addons.feat.enabled     (shortened: X.feat.enabled)
+//	2  addons.extra.X.enabled    (shortened: X.enabled)
+//
+// Real is the (parent values.yaml, user) pair of the boolean at the full path
+// (absent/absent: the `addons` element does not exist at all, or - Elem - it
+// exists as a table holding something else); Shadow is the pair at the
+// shortened path, which must never be consulted. Tag: 0 no tags, 1..3 tag t1
+// with user value absent/true/false.
+type cSpec struct {
+	Tree, Focus string
+	Shape       int
+	Real        pair
+	Elem        bool
+	Shadow      pair
+	Tag         int
+}
+
+func cPaths(shape int, x string) (full, short, elem []string) {
+	switch shape {
+	case 0:
+		return []string{"addons", x, "enabled"}, []string{x, "enabled"}, []string{"addons"}
+	case 1:
+		return []string{x, "addons", "feat", "enabled"}, []string{x, "feat", "enabled"}, []string{x, "addons"}
+	}
+	return []string{"addons", "extra", x, "enabled"}, []string{x, "enabled"}, []string{"addons", "extra"}
+}
+
+func buildC(t tree, s cSpec) *Case {
+	cs := &Case{Root: t.mk(), User: map[string]any{}}
+	richDefaults(cs.Root)
+	r := instantiate(cs.Root, nil, nil)
+	f := findInst(r, s.Focus)
+	q := f.parent
+	full, short, elem := cPaths(s.Shape, f.name)
+	f.dep.Condition = strings.Join(full, ".")
+	up := userPath(q)
+	at := func(p []string) []string { return append(append([]string{}, up...), p...) }
+	setSwitch(q.def.Defaults, full, s.Real.def)
+	setSwitch(cs.User, at(full), s.Real.user)
+	if s.Elem {
+		setPath(q.def.Defaults, append(append([]string{}, elem...), "note"), "n")
+	}
+	setSwitch(q.def.Defaults, short, s.Shadow.def)
+	setSwitch(cs.User, at(short), s.Shadow.user)
+	if s.Tag > 0 {
+		f.dep.Tags = []string{"t1"}
+		setSwitch(cs.User, []string{"tags", "t1"}, []tv{absent, absent, vTrue, vFalse}[s.Tag])
+	}
+	return cs
+}
+
+func enumC(t tree, emit func(cSpec)) {
+	r := instantiate(t.mk(), nil, nil)
+	for _, f := range allInsts(r)[1:] {
+		for shape := 0; shape < 3; shape++ {
+			for _, real := range red6Pairs {
+				for elem := 0; elem < 2; elem++ {
+					if elem == 1 && real != (pair{absent, absent}) {
+						continue // the element exists anyway
+					}
+					for _, sh := range fullPairs {
+						for tag := 0; tag < 4; tag++ {
+							emit(cSpec{Tree: t.ID, Focus: f.dotted(), Shape: shape, Real: real, Elem: elem == 1, Shadow: sh, Tag: tag})
+						}
+					}
+				}
+			}
+		}
+	}
+}
